@@ -265,11 +265,14 @@ class World:
             raise InjectedFault(site)
         return k
 
-    def fn(self, kind, site, m=2, r=0, pool=None):
+    def fn(self, kind, site, m=2, r=0, pool=None, spec=None):
         """Return an instrumented total function of the given kind."""
         enter = self.enter
         if kind == "cond":  # stateful: true for the first m invocations
             return lambda *a: enter(site) < m
+        if kind == "cond_time":  # deterministic function of the virtual clock only
+            T, after = spec["T"], spec.get("after", False)
+            return lambda *a: (enter(site), (self.now() >= T) == after)[1]
         f = pure(kind, m, r, pool)
 
         def g(*a):
